@@ -266,15 +266,15 @@ def enum_scheds(ng, length):
 
 
 def generate(rng, tier, scale=1):
-    ns, nh = (600, 200) if tier == "quick" else (3000, 1200)
+    ns, nh = (600, 200) if tier == "quick" else (6000, 2500)
     cs = [gen_sched(rng) for _ in range(ns * scale)]
     cs += [gen_hist(rng) for _ in range(nh * scale)]
-    cs += [gen_disp(rng) for _ in range((40 if tier == "quick" else 200) * scale)]
+    cs += [gen_disp(rng) for _ in range((40 if tier == "quick" else 300) * scale)]
     if tier == "thorough" and scale == 1:
-        # exhaustive schedule prefixes (the rest is drained in id order): 2 goroutines x 11 steps (with the drain:
-        # every interleaving of up to ~14 steps), 3 goroutines x 7 steps
-        for m0, progs, ng, ln in ((1, [[ACQ, ACQ], [ACQ, ACQ]], 2, 11), (1, [[ACQ], [ACQ], [ACQ]], 3, 7),
-                                  (2, [[ACQ, ACQ], [ACQ], [RES(1)]], 3, 7), (1, [[ACQ, ACQ], [RES(0), RES(2)]], 2, 10)):
+        # exhaustive schedule prefixes (the rest is drained in id order): 2 goroutines x 12 steps (with the drain:
+        # every interleaving of up to ~14 steps), 3 goroutines x 8 steps
+        for m0, progs, ng, ln in ((1, [[ACQ, ACQ], [ACQ, ACQ]], 2, 12), (1, [[ACQ], [ACQ], [ACQ]], 3, 8),
+                                  (2, [[ACQ, ACQ], [ACQ], [RES(1)]], 3, 8), (1, [[ACQ, ACQ], [RES(0), RES(2)]], 2, 11)):
             for s in enum_scheds(ng, ln):
                 cs.append(sched_case(m0, progs, s))
     return cs
